@@ -66,3 +66,5 @@ NI unsigned vf_ha_els(const FieldTrait_Hash_Array *h) { return h->_els; }
 NI unsigned vf_ha_sz(const FieldTrait_Hash_Array *h) { return h->_sz; }
 NI unsigned short *vf_ha_arr(const FieldTrait_Hash_Array *h) { return h->_arr; }
 }
+// native-side helper of the translator validation only: an array the real code may delete[]
+extern "C" void *vf_new_array(size_t bytes) { return new char[bytes]; }
